@@ -330,6 +330,17 @@ def run_case(r, obs):
                   % (ctx.get("variable") if isinstance(ctx, dict) else ctx, var_context))
     obs.check(edges == edges_given, "split-into-bins-modifies-given-edges",
               "%r -> %r" % (edges_given, edges))
+    # a second compute() without a fill in between: the same contexts (the cells' contents are
+    # what the inner analyses yield for a second compute, compared through private twins above
+    # only for the first)
+    results2 = list(sib.compute())
+    ctx1 = [x[1] for x in results[:n_exp] if gen.has_ctx(x)]
+    ctx2 = [x[1] for x in results2[:n_exp] if gen.has_ctx(x)]
+    obs.count("repeated_computes_compared")
+    if len(ctx1) == len(ctx2) == n_exp:
+        obs.check(ctx1 == ctx2, "second-compute-differs",
+                  "two compute() calls with nothing filled in between yield contexts %r and %r (%s)"
+                  % (ctx1[:1], ctx2[:1], what))
     if len(hit) >= 2 and (n_out or n_border) and n_exp:
         obs.nontrivial = True
     # ---------------- IterateBins and MapBins on what was yielded
@@ -597,6 +608,19 @@ def _special(r, obs, lena):
               "whose context %s" % (snap, var.var_context,
                                     "holds a typed context.variable" if r["upstream"]
                                     else "has no variable"))
+    # a second compute() with nothing filled in between describes the same histogram
+    if exc is None:
+        res2 = list(sib.compute())
+        obs.count("repeated_computes_compared")
+        same = len(res2) == len(res) and all(
+            gen.has_ctx(b) and a[1] == b[1] and a[0].bins == b[0].bins and a[0].edges == b[0].edges
+            for a, b in zip(res, res2))
+        obs.check(same, "second-compute-differs",
+                  "two compute() calls of one SplitIntoBins with nothing filled in between: "
+                  "first context %r, second %r (argument variable %s, values whose context %s)"
+                  % (res[0][1] if res else None, res2[0][1] if res2 and gen.has_ctx(res2[0])
+                     else res2, "typed" if r["typed"] else "untyped",
+                     "holds a typed context.variable" if r["upstream"] else "has no variable"))
     again = lena.structures.SplitIntoBins(lena.math.Sum(), var, [0, 1, 2])
     fresh = lena.structures.SplitIntoBins(lena.math.Sum(), mkvar(), [0, 1, 2])
     for s in (again, fresh):
@@ -630,3 +654,5 @@ def _bad(r, obs, lena):
 
 
 RULE += (" The context of every yielded histogram (besides 'variable') is compared with the context of the last value inside the edges; IterateBins is consumed by a streaming consumer that updates received contexts in place (identity walker between cells); one MapBins object meets three histograms in two runs.")
+RULE += (' Every SplitIntoBins is computed a second time with nothing filled in between: the '
+         'contexts (context.variable in particular) are those of the first compute.')
